@@ -2,9 +2,12 @@ package rules
 
 import (
 	"fmt"
+	"go/ast"
 	"go/token"
 	"go/types"
+	"golang.org/x/tools/go/packages"
 	"strings"
+	"verif/checker/internal/flow"
 
 	"golang.org/x/tools/go/ssa"
 )
@@ -15,7 +18,7 @@ func init() {
 		Level: "other",
 		Explain: "Value equality, rounding, `never longer` and panic-freedom of Number/Decimal need relational numeric reasoning over (start, dot, end, exponent) that is out of reach of the analyses available here and are NOT decided. Two clauses are shape and are decided on the SSA form: " +
 			"(R08.1) Decimal never introduces an exponent — every constant byte it stores is '0', '1' or '-', its only non-constant stores are increments by one of a digit that was compared with '9', and it calls no other function (in particular not Number and no formatting routine); " +
-			"(R08.3) digits are moved inside the slice only by copy() or by an element-wise loop that walks against the shift; " +
+			"(R08.5) the precision parameter is bounded before it is added to an index; (R08.4) an `end++` after the fraction was cut off (`end = dot`) is preceded by a store at the dot's position, so that no result ends in `.`; (R08.3) digits are moved inside the slice only by copy() or by an element-wise loop that walks against the shift; " +
 			"(R08.2) every write of Number and Decimal is an element store or copy() whose destination is the parameter slice itself or a low-bound-only reslice of it (bounds-checked by the language against len(num)); there is no append to it, no high-bounded reslice used as a write target and no unsafe, so a write outside the slice can only panic, never touch the caller's neighbouring bytes.",
 		Run: runC08,
 	})
@@ -31,6 +34,12 @@ func init() {
 	mutant(&Mutant{Name: "c08-number-smearing-move", Property: "C08", File: "common.go",
 		Old: "\t\t\t\tcopy(num[start+1:], num[start:dot])\n\t\t\t\tstart++\n", New: "\t\t\t\tfor i := start; i < dot; i++ {\n\t\t\t\t\tnum[i+1] = num[i]\n\t\t\t\t}\n\t\t\t\tstart++\n",
 		Rule: "R08.3", Construct: "Number"})
+	mutant(&Mutant{Name: "c08-decimal-carry-leaves-dot", Property: "C08", File: "common.go",
+		Old: "\t\t\t\t\tnum[start] = '1'\n\t\t\t\t\tnum[end] = '0'\n\t\t\t\t\tend++\n", New: "\t\t\t\t\tnum[start] = '1'\n\t\t\t\t\tnum[start+1] = '0'\n\t\t\t\t\tend++\n",
+		Rule: "R08.4", Construct: "Decimal/end++"})
+	mutant(&Mutant{Name: "c08-precision-unbounded", Property: "C08", File: "common.go",
+		Old: "func Number(num []byte, prec int) []byte {\n\tif len(num) <= 1 {\n\t\treturn num\n\t} else if len(num) <= prec {\n\t\tprec = 0 // more significant digits than characters: keep all, and keep start+prec from overflowing\n\t}\n", New: "func Number(num []byte, prec int) []byte {\n\tif len(num) <= 1 {\n\t\treturn num\n\t}\n",
+		Rule: "R08.5", Construct: "Number/sum with prec"})
 	mutant(&Mutant{Name: "c08-number-appends", Property: "C08", File: "common.go",
 		Old: "\t\treturn num // exponent overflow\n", New: "\t\treturn append(num[:start], '0') // exponent overflow\n",
 		Rule: "R08.2", Construct: "Number"})
@@ -45,6 +54,8 @@ func runC08(c *Ctx) {
 	if pk == nil {
 		return
 	}
+	c.r084(pk)
+	c.r085(pk)
 	for _, name := range []string{"Decimal", "Number"} {
 		fd := c.fn(r2, pk, name)
 		if fd == nil {
@@ -241,6 +252,180 @@ func selfMoves(fn *ssa.Function) (safe int, smear []string) {
 		}
 	}
 	return
+}
+
+// r084: once the fraction is cut off (end = dot) the dot's position is outside the result; an
+// end++ afterwards re-admits that byte, which must have been overwritten with a digit.
+func (c *Ctx) r084(pk *packages.Package) {
+	const rule = "R08.4"
+	c.R.Rule(rule, "in minify.Decimal and minify.Number: on every path from an assignment `end = dot` (the fraction and the dot are dropped) to a later `end++` with no other assignment to end or dot in between, a byte is stored at index `end` or `dot` — otherwise the result num[start:end] ends with the '.' that still sits at the dot's position: Decimal(`99.5`, 2) returns `10.`, which is neither a number of the grammar nor the value 100")
+	info := pk.TypesInfo
+	n := 0
+	for _, name := range []string{"Decimal", "Number"} {
+		fd := c.fn(rule, pk, name)
+		if fd == nil {
+			continue
+		}
+		g := c.graph(pk, fd)
+		isEndAssign := func(y *flow.Node) (string, bool) {
+			switch st := y.Stmt.(type) {
+			case *ast.AssignStmt:
+				if y.Kind == flow.KStmt && len(st.Lhs) == 1 && str(st.Lhs[0]) == "end" {
+					if st.Tok == token.ASSIGN && len(st.Rhs) == 1 {
+						return "=" + nospace(str(st.Rhs[0])), true
+					}
+					return st.Tok.String(), true
+				}
+			case *ast.IncDecStmt:
+				if y.Kind == flow.KStmt && str(st.X) == "end" {
+					return st.Tok.String(), true
+				}
+			}
+			return "", false
+		}
+		storesAtDot := func(y *flow.Node) bool {
+			as, ok := y.Stmt.(*ast.AssignStmt)
+			if !ok || y.Kind != flow.KStmt {
+				return false
+			}
+			for _, l := range as.Lhs {
+				if ix, isIx := ast.Unparen(l).(*ast.IndexExpr); isIx && isByteSlice(info.TypeOf(ix.X)) {
+					if k := nospace(str(ix.Index)); k == "end" || k == "dot" {
+						return true
+					}
+				}
+			}
+			return false
+		}
+		for _, y := range g.Nodes {
+			if how, ok := isEndAssign(y); !ok || how != "=dot" {
+				continue
+			}
+			k := 0
+			for _, z := range g.Nodes {
+				how, ok := isEndAssign(z)
+				if !ok || how != "++" {
+					continue // `end += d` belongs to the re-layout of Number, which rewrites the region with copy()
+				}
+				n++
+				k++
+				p := g.Path(flow.Search{From: []*flow.Node{y}, Goal: func(q *flow.Node) bool { return q == z }, Avoid: func(q *flow.Node) bool {
+					if q == z {
+						return false
+					}
+					if _, isA := isEndAssign(q); isA {
+						return true
+					}
+					// the dot is moved: `dot` no longer names the position of the '.' that was cut off
+					if _, moved := assignsTo(q, func(l ast.Expr) bool { return str(l) == "dot" }); moved {
+						return true
+					}
+					return storesAtDot(q)
+				}})
+				c.R.Check(p == nil, rule, fmt.Sprintf("minify.%s/end++ #%d after `end = dot`", name, k), c.pos(z.Stmt), "the dot's byte is overwritten first, or the growth is not reachable from there", "after `end = dot` the slice is extended again without a store at index end / dot: the result ends with the '.' left at that position (Decimal(`99.5`, 2) → `10.`): "+pathStr(c, g, p))
+			}
+		}
+	}
+	c.R.Floor(rule, "(end = dot, end++) pairs", n, 1)
+}
+
+// r085: the caller-chosen precision is bounded before it enters index arithmetic.
+func (c *Ctx) r085(pk *packages.Package) {
+	const rule = "R08.5"
+	c.R.Rule(rule, "minify.Number and minify.Decimal: every addition that has the int parameter prec as an operand (start + prec, digit + prec: the results are compared with and used as indices) is reached only after prec was bounded from above — through an outcome of a comparison that puts prec below another quantity, or an assignment of a constant to prec: an unbounded precision (math.MaxInt as css/svg Precision option) overflows the sum to a negative index and the helper panics")
+	info := pk.TypesInfo
+	n := 0
+	for _, name := range []string{"Decimal", "Number"} {
+		fd := c.fn(rule, pk, name)
+		if fd == nil {
+			continue
+		}
+		var precObj types.Object
+		for _, f := range fd.Type.Params.List {
+			for _, nm := range f.Names {
+				if nm.Name == "prec" {
+					precObj = info.Defs[nm]
+				}
+			}
+		}
+		if precObj == nil {
+			c.R.Unres(rule, "minify."+name+"/prec", c.pos(fd), "parameter prec not found")
+			continue
+		}
+		isPrec := func(e ast.Expr) bool {
+			id, ok := ast.Unparen(e).(*ast.Ident)
+			return ok && info.Uses[id] == precObj
+		}
+		g := c.graph(pk, fd)
+		bounds := func(q *flow.Node) bool {
+			if q.Kind == flow.KStmt {
+				if rhs, ok := assignsTo(q, isPrec); ok {
+					if _, isK := intConst(info, rhs); isK {
+						return true
+					}
+				}
+				return false
+			}
+			if (q.Kind != flow.KTrue && q.Kind != flow.KFalse) || q.Of == nil || q.Of.Kind != flow.KCond {
+				return false
+			}
+			b, ok := ast.Unparen(q.Of.Expr).(*ast.BinaryExpr)
+			if !ok {
+				return false
+			}
+			op := b.Op
+			if q.Kind == flow.KFalse {
+				switch op {
+				case token.LSS:
+					op = token.GEQ
+				case token.LEQ:
+					op = token.GTR
+				case token.GTR:
+					op = token.LEQ
+				case token.GEQ:
+					op = token.LSS
+				default:
+					return false
+				}
+			}
+			// prec < E, prec <= E, E > prec, E >= prec with E not a constant ≤ 0 … any upper bound by a program quantity
+			switch {
+			case isPrec(b.X) && (op == token.LSS || op == token.LEQ):
+				return true
+			case isPrec(b.Y) && (op == token.GTR || op == token.GEQ):
+				return true
+			}
+			return false
+		}
+		k := 0
+		for _, y := range g.Nodes {
+			var root ast.Node
+			switch y.Kind {
+			case flow.KStmt:
+				root = y.Ast()
+			case flow.KCond:
+				root = y.Expr
+			}
+			if root == nil {
+				continue
+			}
+			uses := false
+			ast.Inspect(root, func(x ast.Node) bool {
+				if be, ok := x.(*ast.BinaryExpr); ok && be.Op == token.ADD && (isPrec(be.X) || isPrec(be.Y)) {
+					uses = true
+				}
+				return true
+			})
+			if !uses {
+				continue
+			}
+			n++
+			k++
+			p := g.Path(flow.Search{From: []*flow.Node{g.Entry}, Goal: func(q *flow.Node) bool { return q == y }, Avoid: bounds})
+			c.R.Check(p == nil, rule, fmt.Sprintf("minify.%s/sum with prec #%d", name, k), c.pos(root), "prec is bounded on every path to the sum", "prec enters "+str0(root)+" without an upper bound: with prec = math.MaxInt the sum wraps around to a negative index")
+		}
+	}
+	c.R.Floor(rule, "sums with prec", n, 3)
 }
 
 func isByte(t types.Type) bool {
